@@ -5,6 +5,7 @@ import (
 	"go/token"
 	"go/types"
 	"sort"
+	"strings"
 
 	"golang.org/x/tools/go/ssa"
 )
@@ -34,6 +35,12 @@ type equivSpec struct {
 	typ     string   // struct type name
 	scalars []string // fields compared as scalars
 	slices  []string // fields compared element-wise (all of one length per node)
+	// helper mode: the function compares two of its slice parameters (indices a, b; field name "X");
+	// integer parameters may stand for the common length (normalised at the call site)
+	helper    *ssa.Function
+	a, b      int
+	paramNorm map[int]idxNorm
+	depth     int
 }
 
 type idxNorm struct {
@@ -43,13 +50,28 @@ type idxNorm struct {
 }
 
 func ruleEquiv(c *Ctx, r *RuleResult, spec equivSpec) {
-	fn := c.Fn(spec.fn)
-	if len(fn.Params) != 2 {
-		r.undecided("%s: expected two parameters", spec.fn)
-		return
+	var fn *ssa.Function
+	var t, u *ssa.Parameter
+	if spec.helper != nil {
+		fn = spec.helper
+	} else {
+		fn = c.Fn(spec.fn)
+		if len(fn.Params) != 2 {
+			r.undecided("%s: expected two parameters", spec.fn)
+			return
+		}
+		t, u = fn.Params[0], fn.Params[1]
 	}
-	t, u := fn.Params[0], fn.Params[1]
 	fieldLoad := func(v ssa.Value) (side int, field string) { // load of p.F for p in {t,u}
+		if spec.helper != nil {
+			switch stripAll(v) {
+			case ssa.Value(fn.Params[spec.a]):
+				return 1, "X"
+			case ssa.Value(fn.Params[spec.b]):
+				return 2, "X"
+			}
+			return 0, ""
+		}
 		ld, ok := v.(*ssa.UnOp)
 		if !ok || ld.Op != token.MUL {
 			return 0, ""
@@ -77,6 +99,16 @@ func ruleEquiv(c *Ctx, r *RuleResult, spec equivSpec) {
 			return idxNorm{}
 		}
 		switch x := v.(type) {
+		case *ssa.Parameter:
+			if spec.helper != nil {
+				for i, p := range fn.Params {
+					if p == x {
+						if n, ok := spec.paramNorm[i]; ok {
+							return n
+						}
+					}
+				}
+			}
 		case *ssa.Const:
 			if k, ok := constInt(x); ok {
 				return idxNorm{off: k, ok: true}
@@ -125,6 +157,7 @@ func ruleEquiv(c *Ctx, r *RuleResult, spec equivSpec) {
 	type edge = eqEdge
 	type piece struct {
 		desc  string
+		call  *ssa.Call
 		cuts  []edge
 		lo    idxNorm // covered index range [lo, hi]
 		hi    idxNorm
@@ -143,6 +176,87 @@ func ruleEquiv(c *Ctx, r *RuleResult, spec equivSpec) {
 				continue
 			}
 			return neg, cond
+		}
+	}
+	// bulk comparisons: bytes.Equal / slices.Equal of the two fields, or a module helper that is handed
+	// the two fields and, analysed in its turn under the same hypotheses, can only answer true when
+	// they agree in every element (and, if it tests that too, in length)
+	bulkFalseLen := []ssa.Value{}
+	bulkMemo := map[*ssa.Call][3]interface{}{}
+	bulkOf := func(x *ssa.Call) (field string, whole, lenToo, ok bool) {
+		if m, done := bulkMemo[x]; done {
+			return m[0].(string), m[1].(bool), m[2].(bool), m[0].(string) != ""
+		}
+		defer func() { bulkMemo[x] = [3]interface{}{field, whole, lenToo} }()
+		f := x.Call.StaticCallee()
+		if f == nil {
+			return "", false, false, false
+		}
+		// which two arguments are the two sides of one slice field?
+		ai, bi := -1, -1
+		for i, a := range x.Call.Args {
+			s1, f1 := fieldLoad(a)
+			if s1 == 0 || !isSliceField[f1] {
+				continue
+			}
+			for j := i + 1; j < len(x.Call.Args); j++ {
+				s2, f2 := fieldLoad(x.Call.Args[j])
+				if s2 != 0 && s2 != s1 && f2 == f1 {
+					ai, bi, field = i, j, f1
+				}
+			}
+		}
+		if ai < 0 {
+			return "", false, false, false
+		}
+		if (f.String() == "bytes.Equal" || f.Name() == "Equal" && f.Pkg != nil && f.Pkg.Pkg.Path() == "slices") && len(x.Call.Args) == 2 {
+			return field, true, true, true
+		}
+		res := f.Signature.Results()
+		if !c.inModule(f) || f.Blocks == nil || spec.depth >= 2 || res.Len() != 1 {
+			return "", false, false, false
+		}
+		if bt, isB := res.At(0).Type().Underlying().(*types.Basic); !isB || bt.Kind() != types.Bool {
+			return "", false, false, false
+		}
+		hs := equivSpec{fn: c.short(f), slices: []string{"X"}, helper: f, a: ai, b: bi, paramNorm: map[int]idxNorm{}, depth: spec.depth + 1}
+		for k, a := range x.Call.Args {
+			if k != ai && k != bi && isInt(a.Type()) {
+				if n := norm(a, 0); n.ok {
+					hs.paramNorm[k] = n
+				}
+			}
+		}
+		scratch := &RuleResult{Rule: "EQUIV"}
+		ruleEquiv(c, scratch, hs)
+		whole, lenToo = true, true
+		for _, fd := range scratch.Findings {
+			if strings.Contains(fd.Key, "length not decisive") {
+				lenToo = false
+			} else {
+				whole = false
+			}
+		}
+		if len(scratch.Undecided) > 0 {
+			whole, lenToo = false, false
+		}
+		return field, whole, lenToo, whole || lenToo
+	}
+	for _, b := range fn.Blocks {
+		for _, in := range b.Instrs {
+			x, ok := in.(*ssa.Call)
+			if !ok {
+				continue
+			}
+			if f, whole, lenToo, ok := bulkOf(x); ok {
+				if whole {
+					bulkFalse[f] = append(bulkFalse[f], x)
+					elemPieces[f] = append(elemPieces[f], piece{desc: "comparison by " + instrDesc(c, x) + " at " + c.instrPos(x), call: x, whole: true})
+				}
+				if lenToo {
+					bulkFalseLen = append(bulkFalseLen, x)
+				}
+			}
 		}
 	}
 	for _, b := range fn.Blocks {
@@ -196,12 +310,15 @@ func ruleEquiv(c *Ctx, r *RuleResult, spec equivSpec) {
 				}
 			}
 		case *ssa.Call:
-			if f := x.Call.StaticCallee(); f != nil && (f.String() == "bytes.Equal" || f.Name() == "Equal" && f.Pkg != nil && f.Pkg.Pkg.Path() == "slices") && len(x.Call.Args) == 2 {
-				s1, f1 := fieldLoad(x.Call.Args[0])
-				s2, f2 := fieldLoad(x.Call.Args[1])
-				if s1 != 0 && s2 != 0 && s1 != s2 && f1 == f2 && isSliceField[f1] {
-					bulkFalse[f1] = append(bulkFalse[f1], x)
-					elemPieces[f1] = append(elemPieces[f1], piece{desc: "bulk comparison at " + c.instrPos(x), cuts: []edge{trueEdge}, whole: true})
+			if f, whole, lenToo, ok := bulkOf(x); ok {
+				if whole {
+					for i := range elemPieces[f] {
+						if elemPieces[f][i].call == x {
+							elemPieces[f][i].cuts = append(elemPieces[f][i].cuts, trueEdge)
+						}
+					}
+				}
+				if lenToo {
 					lengthCuts = append(lengthCuts, trueEdge)
 				}
 			}
@@ -367,7 +484,11 @@ func ruleEquiv(c *Ctx, r *RuleResult, spec equivSpec) {
 	// lengths
 	r.inst("%s: nodes with different numbers of links", spec.fn)
 	{
-		bad, at := reachesTrue(lengthCuts, eqResults(spec.slices...))
+		lf := map[ssa.Value]bool{}
+		for _, v := range bulkFalseLen {
+			lf[v] = true
+		}
+		bad, at := reachesTrue(lengthCuts, lf)
 		r.oblig(!bad)
 		if bad {
 			r.find(spec.fn+":length not decisive", at, "%s can answer true for two nodes with different numbers of children (no comparison of the lengths or of the whole label slices blocks the true result at %s)", spec.fn, at)
